@@ -722,7 +722,16 @@ impl<'a> PGen<'a> {
             }
             PTy::Enum(e) => {
                 let vals = &self.s.enums[*e].values;
-                if self.rng.chance(1, 6) { PV::Int(interesting_i64(self.rng, 32)) } else { PV::Int(vals[self.rng.usize_below(vals.len())].1 as i64) }
+                if self.rng.chance(1, 6) {
+                    // an undeclared number. Not 0 for a proto2 enum that does not declare 0: there
+                    // the default of the type is its first declared value, and a number that a
+                    // closed enum does not have has no agreed reading when an encoder omits "the
+                    // default" (map values)
+                    let x = interesting_i64(self.rng, 32);
+                    if x == 0 && !self.s.proto3 && !vals.iter().any(|v| v.1 == 0) { PV::Int(vals[0].1 as i64) } else { PV::Int(x) }
+                } else {
+                    PV::Int(vals[self.rng.usize_below(vals.len())].1 as i64)
+                }
             }
             PTy::Msg(_) => unreachable!(),
         }
@@ -1068,6 +1077,74 @@ pub fn generate(seed: u64, proto3: bool, nmsgs: usize) -> PSchema {
             fields.push(PField { num, name: format!("f{}", num), kind: FKind::Plain(l, t), oneof: Some(0) });
         }
         s.msgs.push(PMsg { name: "A0".into(), parent: None, fields, oneofs: vec!["o1".into()] });
+        // directed: a NESTED message with the simple name of that top-level message; it refers to
+        // the top-level one (type names are rendered fully qualified), and its parent holds one
+        let top = s.msgs.len() - 1;
+        let nested = s.msgs.len();
+        s.msgs.push(PMsg {
+            name: "A0".into(),
+            parent: Some(0),
+            fields: vec![
+                PField { num: 1, name: "top".into(), kind: FKind::Plain(l, PTy::Msg(top)), oneof: None },
+                PField { num: 2, name: "x".into(), kind: FKind::Plain(l, PTy::Int32), oneof: None },
+                PField { num: 3, name: "tops".into(), kind: FKind::Plain(Label::Repeated, PTy::Msg(top)), oneof: None },
+            ],
+            oneofs: vec![],
+        });
+        if !s.msgs[0].fields.iter().any(|f| f.num == 18999) {
+            s.msgs[0].fields.push(PField { num: 18999, name: "nested_a0".into(), kind: FKind::Plain(l, PTy::Msg(nested)), oneof: None });
+        }
+    }
+    // no message is recursive THROUGH a oneof member (recorded C14 finding, carried by a
+    // directed document): a member whose message type leads back to the message that owns
+    // the oneof becomes an int32
+    {
+        let n = s.msgs.len();
+        let succ = |s: &PSchema, m: usize| -> Vec<usize> {
+            let mut v = vec![];
+            for f in &s.msgs[m].fields {
+                match &f.kind {
+                    FKind::Plain(_, PTy::Msg(t)) => v.push(*t),
+                    FKind::Map(_, PTy::Msg(t)) => v.push(*t),
+                    _ => {}
+                }
+            }
+            v
+        };
+        loop {
+            let mut changed = false;
+            for m in 0..n {
+                for fi in 0..s.msgs[m].fields.len() {
+                    if s.msgs[m].fields[fi].oneof.is_none() {
+                        continue;
+                    }
+                    if let FKind::Plain(l, PTy::Msg(t)) = s.msgs[m].fields[fi].kind.clone() {
+                        // does t reach m?
+                        let mut seen = vec![false; n];
+                        let mut stack = vec![t];
+                        let mut reaches = false;
+                        while let Some(x) = stack.pop() {
+                            if x == m {
+                                reaches = true;
+                                break;
+                            }
+                            if seen[x] {
+                                continue;
+                            }
+                            seen[x] = true;
+                            stack.extend(succ(&s, x));
+                        }
+                        if reaches {
+                            s.msgs[m].fields[fi].kind = FKind::Plain(l, PTy::Int32);
+                            changed = true;
+                        }
+                    }
+                }
+            }
+            if !changed {
+                break;
+            }
+        }
     }
     // a fixed recursive message (depth checks): recursion through a singular field,
     // a repeated field and a map value
@@ -1338,5 +1415,89 @@ mod tests {
                 }
             }
         }
+    }
+}
+
+
+/// Rename every declared thing of a .proto schema with hostile identifiers
+/// (Rust keywords, names colliding after case conversion, names the emitted code
+/// mentions). Uniqueness is kept in protobuf's own terms: nested messages, nested
+/// enums, their VALUES (C++ scoping), fields and oneofs of one message share a
+/// scope; top-level messages, enums and enum values share the file scope.
+pub fn apply_hostile_names(s: &mut PSchema, seed: u64) {
+    use crate::schema::pick_name;
+    use std::collections::BTreeMap;
+    let mut rng = Rng::new(seed ^ 0x4057_22E);
+    let mut taken: BTreeMap<Option<usize>, Vec<String>> = BTreeMap::new();
+    for mi in 0..s.msgs.len() {
+        let parent = s.msgs[mi].parent;
+        let has_nested = s.msgs.iter().any(|c| c.parent == Some(mi)) || s.enums.iter().any(|e| e.parent == Some(mi)) || !s.msgs[mi].oneofs.is_empty();
+        // a message with nested types or a oneof gets a module named after it; with case
+        // conversion off a name that is already lower snake_case IS that module
+        // name (recorded as one known finding through a directed document), so
+        // such messages draw a name with an upper-case letter
+        // message names of one scope also stay distinct after case conversion: `ID { message X }`
+        // next to `id` falls back to the spellings `ID` / `id`, and `id` is the module of ID's
+        // nested types (second recorded finding of this family, directed document)
+        let norm = |n: &str| n.replace('_', "").to_lowercase();
+        let name = loop {
+            let n = pick_name(&mut rng, taken.entry(parent).or_default(), "Msg");
+            if has_nested && !n.chars().any(|c| c.is_ascii_uppercase()) {
+                continue;
+            }
+            let clash = (0..mi).any(|o| s.msgs[o].parent == parent && norm(&s.msgs[o].name) == norm(&n));
+            if !clash {
+                break n;
+            }
+        };
+        s.msgs[mi].name = name;
+    }
+    for ei in 0..s.enums.len() {
+        let parent = s.enums[ei].parent;
+        // (enums too: a type that collides falls back to its spelling, which may be a keyword
+        // that cannot be written as a raw identifier, or the module name of a sibling)
+        let norm = |n: &str| n.replace('_', "").to_lowercase();
+        let name = loop {
+            let n = pick_name(&mut rng, taken.entry(parent).or_default(), "En");
+            let clash = s.msgs.iter().any(|m| m.parent == parent && norm(&m.name) == norm(&n)) || (0..ei).any(|o| s.enums[o].parent == parent && norm(&s.enums[o].name) == norm(&n));
+            if !clash {
+                break n;
+            }
+        };
+        s.enums[ei].name = name;
+        for vi in 0..s.enums[ei].values.len() {
+            s.enums[ei].values[vi].0 = pick_name(&mut rng, taken.entry(parent).or_default(), "VAL");
+        }
+    }
+    for mi in 0..s.msgs.len() {
+        let scope = taken.entry(Some(mi)).or_default();
+        for oi in 0..s.msgs[mi].oneofs.len() {
+            s.msgs[mi].oneofs[oi] = pick_name(&mut rng, scope, "one");
+        }
+        // field names must also be unique as JSON names (lower camel case): `a_b` and `aB`
+        // are one name to protoc and to the pure parser pilota-build uses
+        let norm = |n: &str| n.replace('_', "").to_lowercase();
+        let mut json_taken: Vec<String> = vec![];
+        for fi in 0..s.msgs[mi].fields.len() {
+            let name = loop {
+                let n = pick_name(&mut rng, scope, "fld");
+                if !json_taken.contains(&norm(&n)) {
+                    json_taken.push(norm(&n));
+                    break n;
+                }
+            };
+            s.msgs[mi].fields[fi].name = name;
+        }
+    }
+    if s.package.is_some() && rng.chance(1, 2) {
+        const SEGS: [&str; 8] = ["type", "mod", "async", "match", "fn", "use", "loop", "box"];
+        let a = *rng.pick(&SEGS);
+        let b = loop {
+            let b = *rng.pick(&SEGS);
+            if b != a {
+                break b;
+            }
+        };
+        s.package = Some(format!("{}.{}", a, b));
     }
 }
